@@ -36,6 +36,10 @@ def gen(rng, tier):
         for _ in range(rng.choice([1, 2])):
             seq[rng.randrange(1, len(seq))] = "raise"
         count = {"seq": seq}
+        if not block and rng.random() < 0.3:
+            # "no limit" (None) as the last good answer before the callable raises
+            k = seq.index("raise")
+            seq[k - 1] = None
     nclients = rng.choice([1, 2, 3])
     subs = {}
     clients = []
